@@ -27,10 +27,6 @@ Definition sum64 (s : bytes) : bytes := le_bytes 8 (fnv1a64 s).
 Definition key_with (sep : string) (issuer : bytes) (serial : Z) : bytes :=
   issuer ++ bytes_of_string sep ++ dec_bytes serial.
 
-(* the separator each of the four sites uses, in srcfacts order:
-   map insert, map lookup, leveldb insert, leveldb lookup *)
-Definition sep_at (n : nat) : string := nth n GenFacts.key_separators ""%string.
-
 (* hex text (as written by the harness) -> bytes *)
 Definition hex_val (a : ascii) : N :=
   let n := N_of_ascii a in
